@@ -223,7 +223,9 @@ def write_adf15(d, exp, path):
         for lev in range(1, nb + 5):
             s += "C %5d   1S2 %dP1            (2)1( 1.5) %14.1f\n" % (lev, lev, 1000.0 * lev)
         s += "C\n"
-    s += "C  ISEL  WAVELENGTH      TRANSITION            TYPE\nC  ----  ----------  ----------------------  -----\n"
+    s += "C  ISEL  WAVELENGTH      TRANSITION            TYPE\n"
+    if d.get("rule", True):
+        s += "C  ----  ----------  ----------------------  -----\n"
     for b in index:
         if d["header"] == "hydrogen":
             s += "C  %3d.  %10.2f        N=%2d - N=%2d        %s\n" % (b["isel"], b["wavelength_A"], b["upper"], b["lower"], typ[b["cls"]])
@@ -244,7 +246,7 @@ def check_adf15(d, exp, root, bad):
     blocks = write_adf15(d, exp, path)
     hdr = d["header"]
     el, q = {"hydrogen": (E.hydrogen, 0), "hydrogen-like": (E.carbon, 5), "full": (E.carbon, 2)}[hdr]
-    tag = f"adf15[{hdr}]"
+    tag = f"adf15[{hdr}]" + ("" if d.get("rule", True) else "[no-rule-line]")
     try:
         rates, wl = parse_adf15(el, q, path)
     except RuntimeError as ex:
